@@ -21,6 +21,16 @@ CHECKS: dict[str, dict] = {
         technique="explicit-state model checking of the real stream consumers against an independent reference frame decoder (NFA match with latitude exactly where the statement leaves it)",
         text="All streams of valid/undecodable/largest-safe/at-limit/over-limit frames in every order (bounded length), all chunkings, both paths, separator lengths 1-3, several limits: output must equal frame-by-frame reference decoding for safe frames and resume intact after the terminator of a size-rejected frame.",
     ),
+    "C06": dict(
+        cat="exploration", ref="DESIGN.md §3 C06", engine="E5 drivers + input enumeration",
+        technique="bounded exhaustive input enumeration on the real code (all strings over structural alphabets up to length L, complete edit neighbourhoods, complete depth/length ladders up to the configured limit)",
+        text="Every enumerated input, through one-shot, datagram, copying and buffer-filling paths of every shipped serializer importable here, must end as packet, parse error or still-waiting; any other exception type, a hang, or an error that consumes no byte is a violation. Complete within the stated alphabets/lengths; says nothing about bytes outside the alphabets.",
+    ),
+    "C07": dict(
+        cat="model_checking", ref="DESIGN.md §3 C07, §2 E5", engine="E5 chunkmc",
+        technique="explicit-state model checking of the real stream consumers: invariant (held bytes <= limit+read+separator) checked in every reachable state under all chunkings with reads <= r; safe frames under all chunkings",
+        text="For limits, separator lengths and read sizes in the stated sets every chunking of an unterminated payload keeps held bytes within limit+read+separator (a limit error is raised before), and frames safely under the limit are never rejected for size, on both receive paths.",
+    ),
 }
 
 NOT_YET: dict[str, str] = {}
